@@ -29,7 +29,7 @@ VARIABLES phase,   \* "start", "map", "built", "embedded", "extracted", "rect"
 vars == <<phase, origin, sp, fam, chain, file, stream, file2>>
 
 \* constant-level tables (TLC evaluates them once)
-AllSpaces == {"s1", "s2", "s2w", "mix", "mixw", "s3"}
+AllSpaces == {"s1", "s2", "s2w", "mix", "mix0", "mixw", "s3"}
 RsOf == [n \in AllSpaces |-> SeqRange(Space(n))]
 Short == [1..1 -> Byte] \cup [1..2 -> Byte]
 CodesOf == [n \in AllSpaces |-> Codes(RsOf[n])]
